@@ -3742,3 +3742,99 @@ func rud2LineTable(w *World) {
 	}
 	w.info("line-table|terminator|count", lines.Decl.Pos(), fmt.Sprintf("terminator %q; %d constant trims in location/inverseLocation", term, nTrim))
 }
+
+// RZ4 (C41): a sequence returned by Sorter.Sort is self-contained. Sort returns an iter.Seq; all
+// per-traversal scratch state (the stack, the marks) must be produced inside the returned closure,
+// which also resets it (RZ2). Work done in Sort() itself happens once, when the sequence is
+// *built*: roots pushed there are gone after the first traversal (ranging over the same sequence
+// again, or after an early break, yields nothing) and are shared by every sequence built from the
+// same Sorter before one of them is consumed (the first yields nodes that are not reachable from
+// its roots). Outside the returned function literal Sort may only allocate (nil-guarded `make`).
+func rz4SortSelfContained(w *World) {
+	w.rule("RZ4")
+	const rel = "internal/toposort"
+	p := w.pkg(rel)
+	sortFn := w.fn(rel, "(*Sorter).Sort")
+	st := w.typ(rel, "Sorter")
+	if p == nil || sortFn == nil || st == nil {
+		return
+	}
+	info := p.TypesInfo
+	var iter *ast.FuncLit
+	ast.Inspect(sortFn.Decl.Body, func(x ast.Node) bool {
+		if r, ok := x.(*ast.ReturnStmt); ok && len(r.Results) == 1 && iter == nil {
+			if fl, ok := r.Results[0].(*ast.FuncLit); ok {
+				iter = fl
+			}
+		}
+		return true
+	})
+	if iter == nil {
+		w.undecided("sort-self-contained|iterator", sortFn.Decl.Pos(), "Sorter.Sort no longer returns a function literal")
+		return
+	}
+	// methods of Sorter that write its fields (push)
+	writers := map[*types.Func]bool{}
+	for _, b := range allFuncBodies(p) {
+		if b.Lit != nil || b.Decl.Recv == nil || b.Obj == sortFn.Obj {
+			continue
+		}
+		ast.Inspect(b.Body, func(x ast.Node) bool {
+			if as, ok := x.(*ast.AssignStmt); ok {
+				for _, l := range as.Lhs {
+					e := ast.Unparen(l)
+					if ix, ok := e.(*ast.IndexExpr); ok {
+						e = ast.Unparen(ix.X)
+					}
+					if sel, ok := e.(*ast.SelectorExpr); ok {
+						if f, ok := info.Uses[sel.Sel].(*types.Var); ok && f.IsField() {
+							writers[b.Obj] = true
+						}
+					}
+				}
+			}
+			return true
+		})
+	}
+	var bad []string
+	ast.Inspect(sortFn.Decl.Body, func(x ast.Node) bool {
+		if x == ast.Node(iter) {
+			return false
+		}
+		switch s := x.(type) {
+		case *ast.CallExpr:
+			if f := callee(info, s); f != nil && writers[f.Origin()] {
+				bad = append(bad, "the call "+types.ExprString(s.Fun)+"(…) at "+w.pos(s.Pos()))
+			}
+		case *ast.AssignStmt:
+			for i, l := range s.Lhs {
+				e := ast.Unparen(l)
+				isElem := false
+				if ix, ok := e.(*ast.IndexExpr); ok {
+					e, isElem = ast.Unparen(ix.X), true
+				}
+				sel, ok := e.(*ast.SelectorExpr)
+				if !ok {
+					continue
+				}
+				if f, ok := info.Uses[sel.Sel].(*types.Var); !ok || !f.IsField() {
+					continue
+				}
+				// a plain allocation (`s.state = make(...)`) is fine
+				if !isElem && i < len(s.Rhs) {
+					if c, ok := ast.Unparen(s.Rhs[i]).(*ast.CallExpr); ok && isBuiltinCall(info, c, "make") {
+						continue
+					}
+				}
+				bad = append(bad, "the assignment to "+types.ExprString(l)+" at "+w.pos(s.Pos()))
+			}
+		}
+		return true
+	})
+	if len(bad) == 0 {
+		w.ok("sort-self-contained", sortFn.Decl.Pos(), "outside the returned iterator Sort only allocates; every traversal builds its own stack and marks")
+	} else {
+		sort.Strings(bad)
+		w.violation("sort-self-contained", sortFn.Decl.Pos(), "Sort() fills the Sorter's scratch state when the sequence is built ("+strings.Join(bad, "; ")+") instead of when it is traversed: the first traversal consumes it, so ranging over the same sequence again (or after an early break) yields nothing, and two sequences built from one Sorter before either is consumed mix their roots")
+	}
+}
